@@ -9,7 +9,7 @@ from ..cfg import CFG, cfg_of
 from ..classflow import Closure
 from ..loader import AnalysisError, BuiltinClass, ClassInfo, FuncInfo, dotted, norm, walk_no_nested
 from ..report import Ctx
-from ._shared import headerset_insertion_rule, optional_int_rule
+from ._shared import headerset_insertion_rule, headerset_order_rule, optional_int_rule
 
 LEVEL_TEXT = (
     "Static decision of structural clauses of C16 on /repo's current source: (R16.1) every dict mutator (typeshed table) of "
@@ -69,11 +69,32 @@ def _pruned_edges(fi: FuncInfo, cfg: CFG, mutation_nodes) -> list:
             ok = True
             member = all(v is not None and isinstance(v, ast.Compare) and isinstance(v.ops[0], (ast.In, ast.NotIn)) for _, v in defs)
             if member:
-                # defined from membership before any mutation
+                # defined from a membership test before any mutation. Which membership state means "nothing
+                # changed" depends on the operation: setdefault changes nothing when the key IS present;
+                # pop / delete / discard / remove change nothing when it is NOT.
                 for s, _ in defs:
                     dn = cfg.node_of(s)
                     if dn is None or not all(cfg.node_dominates(dn, m) for m in mutation_nodes):
                         ok = False
+                ops = set()
+                for m in mutation_nodes:
+                    for c_ in astq.calls(m.ast):
+                        if isinstance(c_.func, ast.Attribute):
+                            ops.add(c_.func.attr)
+                if ops and ops <= {"setdefault"}:
+                    nochange_member = True
+                elif ops and ops <= {"pop", "__delitem__", "remove", "discard", "popitem"}:
+                    nochange_member = False
+                else:
+                    ok = False
+                    nochange_member = None
+                if ok and len(defs) == 1:
+                    v = defs[0][1]
+                    present_when_flag_true = isinstance(v.ops[0], ast.In)  # flag = key in self  /  key not in self
+                    # flag true  -> membership == present_when_flag_true ; flag false -> the opposite
+                    label = "T" if present_when_flag_true == nochange_member else "F"
+                    pruned.append((t_, label))
+                continue
             else:
                 trues = [s for s, v in defs if isinstance(v, ast.Constant) and v.value is True]
                 falses = [s for s, v in defs if isinstance(v, ast.Constant) and v.value is False]
@@ -213,6 +234,7 @@ def run(ctx: Ctx) -> None:
         prim = cl.prim_sites(fi)
         raw = [c_ for c_ in astq.calls(fi.node) if isinstance(c_.func, ast.Attribute) and isinstance(c_.func.value, ast.Name) and c_.func.value.id == "dict"]
         ctx.ob("R16.1", f"_CacheControl.{nm} mutates only through notifying methods", not prim and not raw, f"direct stores: {[s.desc for s in prim]}, dict.* calls: {len(raw)}", fi, fi.node, f"{nm} via protocol")
+    _cache_value_table(ctx, cc)
     csp = repo.cls("datastructures.csp.ContentSecurityPolicy")
     for nm in ("_get_value", "_set_value", "_del_value"):
         fi = csp.methods.get(nm)
@@ -239,6 +261,7 @@ def run(ctx: Ctx) -> None:
         ctx.ob("R16.2", f"HeaderSet.{name} notifies after mutating", ok, fact, fi, fi.node, f"HeaderSet.{name} notifies")
     ctx.floor("R16.2", "HeaderSet mutating methods", n, 5)
     ctx.floor("R16.2", "HeaderSet list growth sites", headerset_insertion_rule(ctx, "R16.2"), 1)
+    ctx.floor("R16.2", "HeaderSet methods that drop and add a key", headerset_order_rule(ctx, "R16.2"), 1)
     # MutableSet mixin methods (|=, &=, pop, ...) come from the ABC and go through add/discard: both must be package methods
     for nm in ("add", "discard"):
         o, w = repo.lookup(hs, nm)
@@ -318,21 +341,44 @@ def run(ctx: Ctx) -> None:
             continue
         n += 1
         delegated: set[str] = set()
+        excluded: set[str] | None = None  # names that are NOT delegated when the test is "everything except S"
         generic = False
-        for node in ast.walk(sa.node):
-            if isinstance(node, ast.If):
-                has_super = any(isinstance(c_.func, ast.Attribute) and c_.func.attr == "__setattr__" for s in node.body for c_ in astq.calls(s))
-                if not has_super:
-                    continue
-                cp_ = astq.cmp_parts(node.test)
-                if cp_ and isinstance(cp_[1], ast.In) and isinstance(cp_[2], (ast.Set, ast.Tuple, ast.List)):
-                    delegated |= {e.value for e in cp_[2].elts if isinstance(e, ast.Constant)}
-                elif "type(self)" in norm(node.test) or "__class__" in norm(node.test):
-                    generic = True
-        if not any(isinstance(node, ast.If) for node in ast.walk(sa.node)):
-            generic = all(isinstance(s, ast.Expr) and "__setattr__" in norm(s) for s in sa.node.body if not (isinstance(s, ast.Expr) and isinstance(s.value, ast.Constant)))
+        from ..fold import Folder as _Folder
+        from ..guards import canon as _canon, simulate as _simulate
+
+        scfg = cfg_of(sa)
+        name_param = sa.params[1] if len(sa.params) > 1 else "name"
+        member_tests = []
+        for tn in scfg.tests():
+            if tn.kind != "test":
+                continue
+            k, p = _canon(tn.ast)
+            if k.startswith(f"{name_param} in "):
+                cmp_ = tn.ast
+                while isinstance(cmp_, ast.UnaryOp):
+                    cmp_ = cmp_.operand
+                try:
+                    members = set(_Folder(repo).expr(c.module, cmp_.comparators[0]))
+                except Exception:
+                    members = None
+                member_tests.append((k, members))
+            elif "type(self)" in k or "__class__" in k:
+                generic = True
+
+        def delegates(outs) -> bool:
+            return bool(outs) and all(any(n.ast is not None and n.kind == "stmt" and any(isinstance(c_.func, ast.Attribute) and c_.func.attr == "__setattr__" and isinstance(c_.func.value, ast.Call) and dotted(c_.func.value.func) == "super" for c_ in astq.calls(n.ast)) for n in o.passed) for o in outs)
+
+        if len(member_tests) == 1 and member_tests[0][1] is not None:
+            k, members = member_tests[0]
+            if delegates(_simulate(scfg, lambda key: True if key == k else None)):
+                delegated = set(members)
+            if delegates(_simulate(scfg, lambda key: False if key == k else None)):
+                excluded = set(members)
+        elif not member_tests and not generic:
+            generic = delegates(_simulate(scfg, lambda key: None))
         for prop in need:
-            ctx.ob("R16.4", f"{c.name}.__setattr__ reaches the `{prop}` setter", generic or prop in delegated, f"names delegated to the default __setattr__: {sorted(delegated)}{' (+generic class lookup)' if generic else ''}", sa, sa.node, f"{c.name}.__setattr__ delegates {prop}")
+            reaches = generic or prop in delegated or (excluded is not None and prop not in excluded)
+            ctx.ob("R16.4", f"{c.name}.__setattr__ reaches the `{prop}` setter", reaches, f"names delegated to the default __setattr__: {sorted(delegated)}{' (+generic class lookup)' if generic else ''}{' ; everything except ' + str(sorted(excluded)) if excluded is not None else ''}", sa, sa.node, f"{c.name}.__setattr__ delegates {prop}")
     ctx.floor("R16.4", "classes overriding __setattr__ with property setters", n, 1)
 
     # ---------------- R16.5 ----------------------------------------
@@ -509,3 +555,58 @@ def _views(ctx: Ctx) -> None:
 
 def _passes_cb(c: ast.Call) -> bool:
     return any(astq.is_name(a, "on_update") for a in c.args) or any(astq.is_name(k.value, "on_update") for k in c.keywords)
+
+
+def _cache_value_table(ctx: Ctx, cc: ClassInfo) -> None:
+    """decision table of _CacheControl._set_cache_value: a boolean directive is present iff the assigned value is
+    truthy; any other directive is removed by None / False, valueless for True, and stores str(value) otherwise."""
+    from ..guards import atom, decision_table
+
+    fi = cc.methods["_set_cache_value"]
+    cfg = cfg_of(fi)
+    BOOL = atom("type is bool")[0]
+    TRUTHY = atom("value")[0]
+    NONE = atom("value is None")[0]
+    FALSE = atom("value is False")[0]
+    TRUE = atom("value is True")[0]
+    TYPED = atom("type is None")[0]
+
+    def consistent(v) -> bool:
+        if v[NONE] and (v[TRUTHY] or v[FALSE] or v[TRUE]):
+            return False
+        if v[FALSE] and (v[TRUTHY] or v[TRUE]):
+            return False
+        if v[TRUE] and not v[TRUTHY]:
+            return False
+        if v[BOOL] and v[TYPED]:
+            return False
+        return True
+
+    def effect(o) -> str:
+        acts = []
+        for n in o.passed:
+            if n.kind != "stmt" or n.ast is None:
+                continue
+            t = norm(n.ast)
+            if isinstance(n.ast, ast.Assign) and isinstance(n.ast.targets[0], ast.Subscript) and astq.is_name(n.ast.targets[0].value, "self"):
+                acts.append("set-valueless" if norm(n.ast.value) == "None" else "set-str" if norm(n.ast.value).startswith("str(") else f"set-other:{norm(n.ast.value)}")
+            elif "self.pop(" in t or t.startswith("del self["):
+                acts.append("remove")
+        return "+".join(acts) or "nothing"
+
+    bad = []
+    rows = decision_table(cfg, [BOOL, TRUTHY, NONE, FALSE, TRUE, TYPED], consistent)
+    for v, outs in rows:
+        if v[BOOL]:
+            want = "set-valueless" if v[TRUTHY] else "remove"
+        elif v[NONE] or v[FALSE]:
+            want = "remove"
+        elif v[TRUE]:
+            want = "set-valueless"
+        else:
+            want = "set-str"
+        got = sorted({effect(o) for o in outs})
+        if got != [want]:
+            bad.append(f"[bool directive={v[BOOL]}, truthy={v[TRUTHY]}, None={v[NONE]}, False={v[FALSE]}, True={v[TRUE]}] expected {want}, got {got}")
+    ctx.floor("R16.6", "decision rows of _set_cache_value", len(rows), 8)
+    ctx.ob("R16.6", "_set_cache_value: boolean directives follow the truthiness of the value; others None/False remove, True valueless, else str(value)", not bad, "; ".join(bad[:3]) + (f" (+{len(bad) - 3} more)" if len(bad) > 3 else "") if bad else f"{len(rows)} rows agree", fi, fi.node, "cache value decision table")
